@@ -338,6 +338,29 @@ def r07c(ck, prog):
         seen.add(x)
     if len(seen) != 2:
         ck.violation("R07c", "R07c/do_align/sides", site(prog, D), "gap penalties are rescaled for node(s) %s only" % sorted(seen), prog.config)
+    # sequence-vs-group shape: the kernel multiplies the scalar penalties (gaps opened in the group) by m->sip, which must be
+    # the member count of the very group whose profile is handed over as prof1
+    nsip = 0
+    fns = [D] + [prog.functions[c.callee] for c in D.body.calls() if c.callee in prog.functions and prog.functions[c.callee].static
+                 and prog.functions[c.callee].file == D.file and c.callee != D.name]
+    for G in fns:
+        for a, lhs, rhs in stores_to_field(G.body, "aln_mem", "sip"):
+            blk = next((x for x in a.ancestors() if x.k == "CompoundStmt"), None)
+            prof = [(a2, r2) for a2, l2, r2 in stores_to_field(blk, "aln_mem", "prof1")] if blk is not None else []
+            prof = [(a2, r2) for a2, r2 in prof if next((x for x in a2.ancestors() if x.k == "CompoundStmt"), None) is blk]
+            where = site(prog, a, "sip")
+            my = re.search(r"nsip\[(\w+)\]", rhs.text())
+            mx = re.search(r"profile\[(\w+)\]", prof[0][1].text()) if len(prof) == 1 else None
+            if not (my and mx):
+                raise AnalysisBroken("R07c: the branch that sets m->sip at %s does not set prof1 = profile[X] / sip = nsip[Y] in a recognised form" % a.loc)
+            nsip += 1
+            ck.inst("R07c", where, "%s: prof1 = profile[%s], sip = nsip[%s]" % (G.name, mx.group(1), my.group(1)), prog.config)
+            if mx.group(1) != my.group(1):
+                ck.violation("R07c", "R07c/%s/sip-%s" % (G.name, mx.group(1)), where,
+                             "the group handed to the sequence-profile kernel is node %s but m->sip is the member count of node %s: gaps "
+                             "opened in the group are priced for the wrong number of sequences, the kernel no longer maximises the "
+                             "sum-of-pairs score" % (mx.group(1), my.group(1)), prog.config)
+    ck.floor("R07c", nsip, 2, "sequence-vs-group branches setting m->sip")
 
 
 COORDS = ("startb", "endb", "starta", "enda", "len_a", "len_b")
